@@ -2,6 +2,9 @@ package vharn
 
 import (
 	"net/http"
+	"net/url"
+
+	"github.com/johannesboyne/gofakes3"
 
 	"github.com/johannesboyne/gofakes3/internal/vsym"
 )
@@ -74,9 +77,35 @@ func VH_C12c() {
 		"X-Amz-Meta-A":                 {"new"},
 	}
 	rd := &failingBody{data: stream, frag: 1 + vsym.Choice("frag", 3), failAt: -1}
+	good := wellFormed && declared == len(payload)
+	if vsym.Choice("aspart", 2) == 1 {
+		// the same stream as a part of a multipart upload: the part is the payload
+		id := initiate(h, "k", http.Header{})
+		vsym.Assert(uploadPart(h, "k", id, 1, []byte("p1")).Code() == 200, "C12c/first-part")
+		before := snapC08(h, "k", id)
+		r := Do(h, Req{Method: "PUT", Path: "/bkt/k", Query: url.Values{"uploadId": {id}, "partNumber": {"2"}}, Header: hdr, Body: rd, Length: int64(len(stream))})
+		if declared <= 0 {
+			good = false // a part needs a positive length
+		}
+		if r.Code() == 200 {
+			vsym.Reach("C12c/part-accepted")
+			vsym.Assert(good, "C12c/bad-stream-accepted-as-part")
+			vsym.Assert(r.Hdr.Get("ETag") == partETag(payload), "C12c/part-etag-of-payload")
+			rq := BodyReq("POST", "/bkt/k", nil, CompleteBody([]gofakes3.CompletedPart{{PartNumber: 1, ETag: partETag([]byte("p1"))}, {PartNumber: 2, ETag: partETag(payload)}}))
+			rq.Query = url.Values{"uploadId": {id}}
+			vsym.Assert(Do(h, rq).Code() == 200, "C12c/complete")
+			g := Do(h, Req{Method: "GET", Path: "/bkt/k"})
+			vsym.Assert(g.Code() == 200 && string(g.Body) == "p1"+string(payload), "C12c/stored-part-payload")
+			return
+		}
+		vsym.Reach("C12c/part-rejected")
+		vsym.Assert(!good, "C12c/good-stream-rejected-as-part")
+		vsym.Assert(r.Code() >= 400, "C12c/reject-status")
+		sameSnapC08("C12c/part", before, snapC08(h, "k", id))
+		return
+	}
 	before := snapC08(h, "k", "")
 	r := Do(h, Req{Method: "PUT", Path: "/bkt/k", Header: hdr, Body: rd, Length: int64(len(stream))})
-	good := wellFormed && declared == len(payload)
 	if r.Code() == 200 {
 		vsym.Reach("C12c/accepted")
 		vsym.Assert(good, "C12c/bad-stream-accepted")
